@@ -1846,35 +1846,45 @@ def c20_store_aliasing(res, rng):
                          "players rebuilt from the same values: %r vs %r" % (kind, got, want), dict(type="c20alias", kind=kind)); break
 
 
-def _ids_in_child(kind, n, q):
-    m = MODEL_CLS[kind]()
-    q.put([str(m.rating().id) for _ in range(n)] + [str(m.create_rating([25.0, 8.0]).id)])
-
-
 def c20_forked_workers(res):
     """ratings created in forked worker processes (the default way multiprocessing starts workers on Linux) after the parent has created
-    some: every id is fresh — unique across the workers and the parent"""
-    import multiprocessing as mp
-    try:
-        ctx = mp.get_context("fork")
-    except ValueError:
+    some: every id is fresh — unique across the workers and the parent.  (Plain os.fork with a pipe per child, so that the probe also works
+    inside the worker processes of the thorough tier.)"""
+    if not hasattr(os, "fork"):
         return
     for kind in KINDS:
         model = MODEL_CLS[kind]()
         parent = [str(model.rating().id) for _ in range(3)]
-        q = ctx.Queue()
-        ps = [ctx.Process(target=_ids_in_child, args=(kind, 4, q)) for _ in range(3)]
-        for p_ in ps:
-            p_.start()
         got = []
-        try:
-            for _ in ps:
-                got.append(q.get(timeout=60))
-        except Exception:  # noqa: BLE001
-            res.count("forked_worker_probe_timed_out")
-        for p_ in ps:
-            p_.join(timeout=30)
-        ids = parent + [i for g_ in got for i in g_]
+        for _child in range(3):
+            r_, w_ = os.pipe()
+            pid = os.fork()
+            if pid == 0:
+                code = 0
+                try:
+                    os.close(r_)
+                    m2 = MODEL_CLS[kind]()
+                    ids_ = [str(m2.rating().id) for _ in range(4)] + [str(m2.create_rating([25.0, 8.0]).id)]
+                    os.write(w_, json.dumps(ids_).encode())
+                    os.close(w_)
+                except BaseException:  # noqa: BLE001
+                    code = 1
+                finally:
+                    os._exit(code)
+            os.close(w_)
+            buf = b""
+            while True:
+                chunk = os.read(r_, 65536)
+                if not chunk:
+                    break
+                buf += chunk
+            os.close(r_)
+            os.waitpid(pid, 0)
+            try:
+                got.append(json.loads(buf.decode()))
+            except Exception:  # noqa: BLE001
+                res.count("forked_worker_probe_failed")
+        ids = parent + [i_ for g_ in got for i_ in g_]
         res.count("ids_from_forked_workers", len(ids) - len(parent))
         if len(set(ids)) != len(ids):
             res.fail("property", "C20: %s: ratings created in forked worker processes share ids (%d ids, %d distinct)" % (kind, len(ids), len(set(ids))),
